@@ -16,3 +16,5 @@ print({k:c[k] for k in c if 'stride' in k or 'narrow' in k or 'abandon' in k or 
 P
 git -C /repo checkout -- .
 rm -rf $d
+# the dbg binary in sim/target is now built from the patched tree: rebuild before using it for anything else
+( cd /verif && ./setup.sh > /dev/null 2>&1 )
